@@ -7,6 +7,32 @@ BASE_OFF = ("cd /repo && env -u GIN_CONFIG_VERIF /venv/bin/python -m pytest -ra 
 
 CHECKS = {
 
+  'C04': ('model_checking',
+          'TLA+ spec GinCore.tla (recursive Eval / CallW vs declarative ExpEvals) model-checked with TLC incl. an expected-violation control; TLC behaviours replayed into gin with counting probes',
+          'TLC checks that the evaluation log of every call equals one invocation per occurrence of an evaluated reference in Gin-supplied parameters (recursively, right scope) and none for caller-supplied ones; the pre-fix keyword-override behaviour is a control that must violate it; behaviours over nested containers are replayed into gin, result objects compared structurally, consumers mutate what they receive.',
+          'Trusted: TLC, adapter. Reference graphs acyclic by construction; containers nested to depth 2.',
+          'DESIGN.md section 6 C04'),
+  'C05': ('model_checking',
+          'TLA+ spec GinCore.tla (macros as scoped references, parse-time %name resolution, constants via suffix matching) model-checked with TLC; TLC behaviours replayed into gin through config text and gin.constant',
+          'TLC checks late binding, constant identity, suffix resolution / ambiguity, duplicate definitions and finalize rejection over all orders of definitions and uses within bounds; behaviours are replayed through real config text.',
+          'Trusted: TLC, adapter. Macro names simple identifiers; constant names to 3 components.',
+          'DESIGN.md section 6 C05'),
+  'C06': ('model_checking',
+          'TLA+ spec GinCore.tla (abstract Serialize / minimal spelling resolution) model-checked with TLC; TLC behaviours replayed into gin, real config_str() text read back with gin\'s parser and re-parsed / re-serialised / permuted',
+          'TLC checks at statement level that every emitted statement resolves back uniquely and that exactly the representable bindings are emitted, over registries with suffix-related names; the text level (wrapping, quoting, order, Markdown, round trip, idempotence, order independence) is decided on the real text for every replayed final state at several (width, indent) pairs with literal pools that stress quoting and numeric edge cases.',
+          'Section ordering and text layout are not in the TLA+ model (TLC cannot order strings); they are checked against an independent oracle in the harness.',
+          'DESIGN.md section 6 C06'),
+  'C07': ('model_checking',
+          'TLA+ spec GinCore.tla (operative record updates, C07_Step / C07_Sections / C07_Never) checked by TLC along simulated behaviours; TLC behaviours replayed into gin; operative_config_str() read back and the calls replayed from it',
+          'TLC checks which parameters each call records and under which key; behaviours are replayed into gin comparing the record after every step, the printed text statement by statement, and (fixed configuration, representable values) clear + parse + repeat of the same calls.',
+          'The model is too large for exhaustive search with the operative record in the state: TLC simulation (properties evaluated on every transition) is used and reported as such.',
+          'DESIGN.md section 6 C07'),
+  'C20': ('model_checking',
+          'TLA+ spec GinCore.tla (Clear over bindings, calls, singletons, constants, finalize, unlock) checked by TLC along simulated behaviours; TLC behaviours replayed into gin with a fresh-world differential oracle',
+          'TLC checks that Clear is always enabled and resets every store; behaviours with Clear are replayed into gin and the final world is compared with a fresh world that executed only what clear_config does not undo.',
+          'Fresh world is in-process (same interpreter); TLC part is simulation.',
+          'DESIGN.md section 6 C20'),
+
   'C01': ('model_checking',
           'TLA+ spec GinCore.tla (wrapper transcription vs declarative C01_Deliver) model-checked with TLC; TLC behaviours replayed into gin',
           'TLC checks, for every call split in every reachable (bindings, active scope) state of a signature family, that the step-by-step transcription of gin_wrapper delivers exactly the declarative per-parameter expectation; simulated behaviours over 144 signature shapes are replayed into the real gin comparing delivered arguments, *args, **kwargs, error class and the projected store / operative record / scope stack after every step.',
